@@ -571,12 +571,29 @@ Error RACFGBuilder::move_reg_to_stack_arg(InvokeNode* invoke_node, const FuncVal
   Support::maybe_unused(invoke_node);
   Mem stack_ptr = ptr(_pass._sp.as<Gp>(), arg.stack_offset());
 
+  // The store must have the size of the argument, not the size of the virtual register that holds it - Apple packs stack
+  // arguments to their natural size, so a wider store would overwrite the arguments (or the caller's own data) that follow.
+  uint32_t arg_size = TypeUtils::size_of(arg.type_id());
+
   if (reg.is_gp()) {
-    return cc().str(reg.as<Gp>(), stack_ptr);
+    Gp gp = reg.as<Gp>();
+    switch (arg_size) {
+      case 1: return cc().strb(gp.w(), stack_ptr);
+      case 2: return cc().strh(gp.w(), stack_ptr);
+      case 4: return cc().str(gp.w(), stack_ptr);
+      case 8: return cc().str(gp.x(), stack_ptr);
+      default: return cc().str(gp, stack_ptr);
+    }
   }
 
   if (reg.is_vec()) {
-    return cc().str(reg.as<Vec>(), stack_ptr);
+    Vec vec = reg.as<Vec>();
+    switch (arg_size) {
+      case 4: return cc().str(vec.s(), stack_ptr);
+      case 8: return cc().str(vec.d(), stack_ptr);
+      case 16: return cc().str(vec.q(), stack_ptr);
+      default: return cc().str(vec, stack_ptr);
+    }
   }
 
   return make_error(Error::kInvalidState);
